@@ -101,7 +101,7 @@ def cxxio_pass(prop, tier, seed):
     with ThreadPoolExecutor(nw) as ex:
         outs = list(ex.map(work, range(nw)))
     shutil.rmtree(root, ignore_errors=True)
-    names = ["cxx_cases", "cxx_violations", "cxx_sink_calls", "cxx_bytes", "cxx_runs", "cxx_stops", "cxx_string_sinks", "cxx_timeouts", "cxx_looks_under_mutex"]
+    names = ["cxx_cases", "cxx_violations", "cxx_sink_calls", "cxx_bytes", "cxx_runs", "cxx_stops", "cxx_string_sinks", "cxx_timeouts", "cxx_looks_under_mutex", "cxx_runs_that_must_stop_the_child"]
     obs = {n: 0 for n in names}
     viols = []
     for rc, out, err in outs:
@@ -163,17 +163,17 @@ WIN_HANDLE_CLASSES = {
     "C10": ("win-std-handles", "win-start-failed", "win-process-handle", "win-handle-not-made-inheritable",
             # src/win.c --redirect: redirect.windows.c (which object, which direction)
             "win-parent-wrong-std-id", "win-parent-wrong-handle", "win-parent-missing-not-reported", "win-file-redirect-failed",
-            "win-file-wrong-direction", "win-file-wrong-name", "win-file-disposition", "win-file-handle"),
+            "win-file-wrong-direction", "win-file-wrong-name", "win-file-disposition", "win-file-handle", "win-redirect-handle-closed"),
     "C11": ("win-handle-list-not-in-force", "win-handle-list-missing", "win-handle-list-foreign", "win-foreign-handle-made-inheritable",
             "win-file-inheritable", "win-process-created-without-handle-list"),
-    "C05": ("win-closes-callers-handle", "win-thread-handle", "win-fault-leak", "win-start-leak", "win-destroy-closes"),
+    "C05": ("win-closes-callers-handle", "win-thread-handle", "win-fault-leak", "win-start-leak", "win-destroy-closes", "win-redirect-handle-closed"),
     "C04": ("win-fault-wrong-error", "win-fault-handle-set", "win-fault-process-created"),
     # src/win.c --life: wait / terminate / kill / pid of process.windows.c at the Win32 boundary
     "C01": ("win-wait-status",),
     "C06": ("win-wait-target", "win-terminate-target", "win-kill-target", "win-pid"),
     "C07": ("win-terminate-target", "win-kill-target"),
 }
-WIN_MODE = {"C10": ["--handles", "--redirect"], "C11": ["--handles", "--redirect"], "C05": ["--handles", "--life"], "C04": ["--handles"],
+WIN_MODE = {"C10": ["--handles", "--redirect"], "C11": ["--handles", "--redirect"], "C05": ["--handles", "--life", "--redirect"], "C04": ["--handles"],
             "C01": ["--life"], "C06": ["--life"], "C07": ["--life"]}
 
 
@@ -475,7 +475,7 @@ CHECKS = {
         "discard against free-running children on the real library (the thread-safe sink while another thread keeps taking the mutex and watches the strings); non-trivial = a drain/run was compared",
         {"drains": 1500, "sink_calls": 10000, "closing_calls": 900, "sink_failures": 50, "string_sinks": 150,
          "realloc_faults_fired": 50, "timeouts": 50, "runs": 300, "cxx_cases": 400, "cxx_sink_calls": 1500,
-         "cxx_runs": 100, "cxx_string_sinks": 50, "cxx_timeouts": 50, "cxx_looks_under_mutex": 100},
+         "cxx_runs": 100, "cxx_string_sinks": 50, "cxx_timeouts": 50, "cxx_looks_under_mutex": 100, "cxx_runs_that_must_stop_the_child": 40},
         assumptions=KERNEL_TRUST + ["the C++ pass runs free-running helper children in real time: only time-independent facts are asserted (plus 'an expired deadline with open streams yields timed_out')"],
         extra=cxxio_pass),
     "C17": scen_check(
